@@ -42,13 +42,15 @@ def partitions(tier, seed):
             tr = sp.trace_of(sp.cmd_key(), data)
             lab = "%s-%s" % (sp.cc_name(cc), label)
             parts.extend(size_variants(PROP, "C03", sp.cmd_key(), lab, data, tr))
-            parts.extend(pair_variants(sp.cmd_key(), lab, data, tr, None, quick))
+            if not quick or sp.cc_name(cc) in CORE:
+                parts.extend(pair_variants(sp.cmd_key(), lab, data, tr, None, quick))
         for label, enc, data in G.responses(cc, minimal=quick):
             tr = sp.trace_of(sp.rsp_key(), data, cc=cc, enc=enc)
             lab = "%s-%s" % (sp.cc_name(cc), label)
             cfg = {"cc": cc, "enc": enc}
             parts.extend(size_variants(PROP, "C03", sp.rsp_key(), lab, data, tr, cfg=cfg))
-            parts.extend(pair_variants(sp.rsp_key(), lab, data, tr, cfg, quick))
+            if not quick or sp.cc_name(cc) in CORE:
+                parts.extend(pair_variants(sp.rsp_key(), lab, data, tr, cfg, quick))
     # synthetic types nesting regions deeper than any real type: every byte string up to N
     from . import synth
 
